@@ -25,7 +25,9 @@ def replay_e3(rec):
         code = compile(open(recipe["file"], "rb").read(), recipe["file"], "exec", dont_inherit=True)
     else:
         sid = recipe.get("source_id")
-        items = gen.g1_repo_examples() + gen.g2_templates(True) + gen.g3_boundaries(True)
+        if "filename" in recipe:
+            code = compile(gen.FILENAME_SRC, recipe["filename"], "exec", dont_inherit=True)
+        items = gen.g1_repo_examples() + gen.g2_templates(True) + gen.g3_boundaries(True) + gen.TLA_ITEMS
         pre = []
         for id_, src, mode in items:
             if id_ == sid:
@@ -66,6 +68,8 @@ def replay_e1(rec):
 
 
 def main():
+    from .run import install_api_time_limits
+    install_api_time_limits(600)
     rec = json.load(open(sys.argv[1]))
     try:
         res = replay_e3(rec) if rec.get("kind") == "e3" else replay_e1(rec)
